@@ -32,7 +32,8 @@ use std::{
 
 use compio_buf::{BufResult, IntoInner};
 use compio_driver::{
-    AsyncifyPool, DispatchError, Dispatchable, DriverType, Key, OpCode, Proactor, PushEntry, op::Asyncify,
+    AsyncifyPool, DispatchError, Dispatchable, DriverType, Key, OpCode, Proactor, PushEntry,
+    op::{Asyncify, Interest, PollOnce},
 };
 use hx_common::*;
 
@@ -1086,6 +1087,337 @@ fn exec_prx(w: &[&str], salt: u64, ex: &mut Exec) -> String {
     run_prx(limit, tmo, dt, scripts, None, salt, ex)
 }
 
+/// a socket that is readable for ever (one byte written, never read)
+fn always_readable() -> &'static std::os::unix::net::UnixStream {
+    static PAIR: std::sync::OnceLock<(std::os::unix::net::UnixStream, std::os::unix::net::UnixStream)> = std::sync::OnceLock::new();
+    let (rx, _tx) = PAIR.get_or_init(|| {
+        use std::io::Write;
+        let (rx, mut tx) = std::os::unix::net::UnixStream::pair().expect("socketpair");
+        tx.write_all(b"x").expect("write");
+        (rx, tx)
+    });
+    rx
+}
+
+fn driver_name(dt: DriverType) -> &'static str {
+    if dt == DriverType::IoUring { "io_uring" } else { "polling" }
+}
+
+/// the body of an `Asyncify` operation of job `j`: counted, logged, optionally timed
+fn asyncify_body(
+    sh: Arc<Shared>,
+    j: usize,
+    kind: u8,
+    dur: Duration,
+    began: Option<Arc<Mutex<Option<Instant>>>>,
+) -> impl FnOnce() -> BufResult<usize, Vec<u8>> + Send + 'static {
+    let payload = payload_of(sh.salt, j);
+    move || {
+        sh.exec[j].fetch_add(1, SeqCst);
+        if let Some(b) = &began {
+            *b.lock().unwrap() = Some(Instant::now());
+        }
+        let w = sh.begin(j);
+        struct G(Arc<Shared>, usize, usize);
+        impl Drop for G {
+            fn drop(&mut self) {
+                self.0.end(self.1, self.2)
+            }
+        }
+        let _g = G(sh.clone(), w, j);
+        if !dur.is_zero() {
+            thread::sleep(dur);
+        }
+        if kind == b'p' {
+            panic!("asyncify job {j} panics");
+        }
+        BufResult(Ok(j + 1000), payload)
+    }
+}
+
+/// `busyfd <limit> <timeout_ms> <u|p> <script>`: the blocking jobs finish while the driver is kept busy by a
+/// file descriptor that is ready on every single poll (a fresh `PollOnce` on an always-readable socket
+/// before each poll).  Completed results are drained on every poll whatever the fd events are, so each result
+/// or panic must reach its submitter within a few polls (`C17:result-not-delivered`).
+fn exec_busyfd(w: &[&str], salt: u64, ex: &mut Exec) -> String {
+    let (Ok(limit), Ok(tmo)) = (w[1].parse::<usize>(), w[2].parse::<u64>()) else { return "bad-op".into() };
+    let dt = match w[3] {
+        "u" => DriverType::IoUring,
+        "p" => DriverType::Poll,
+        _ => return "bad-op".into(),
+    };
+    let Some(script) = parse_script(w[4]) else { return "bad-op".into() };
+    if limit == 0 || script.is_empty() || script.iter().any(|s| s.kind == b'r') || script.len() + 300 >= MAXJOBS {
+        return "bad-op".into();
+    }
+    const MAX_ROUNDS: usize = 40;
+    const OK_ROUNDS: usize = 8;
+    let sh = Shared::new(salt);
+    let sh2 = sh.clone();
+    let n = script.len();
+    let kinds: Vec<u8> = script.iter().map(|s| s.kind).collect();
+    // (outcomes, round at which the last result arrived, problems)
+    let h = helper(move || -> Result<(HashMap<usize, Out>, usize), String> {
+        let sh = sh2;
+        let mut builder = Proactor::builder();
+        builder.driver_type(dt).thread_pool_limit(limit).thread_pool_recv_timeout(Duration::from_millis(tmo));
+        let mut driver = builder.build().map_err(|e| format!("build: {e}"))?;
+        let mut keys = vec![];
+        for (j, sp) in script.iter().enumerate() {
+            let op = Asyncify::new(asyncify_body(sh.clone(), j, sp.kind, Duration::from_micros(sp.dur_us), None));
+            match driver.push(op) {
+                PushEntry::Pending(k) => keys.push((j, Some(k))),
+                PushEntry::Ready(_) => return Err(format!("job {j}: push completed synchronously")),
+            }
+        }
+        // every job body has ended, and the workers had time to hand their results to the driver
+        let t0 = Instant::now();
+        while sh.ended.load(SeqCst) < n {
+            if t0.elapsed() > Duration::from_secs(8) {
+                return Err(format!("only {} of {n} jobs ran", sh.ended.load(SeqCst)));
+            }
+            thread::sleep(Duration::from_micros(300));
+        }
+        thread::sleep(Duration::from_millis(30));
+        let mut outs = HashMap::new();
+        let mut last_round = 0;
+        for round in 0..MAX_ROUNDS {
+            let mut fd_op = match driver.push(PollOnce::new(always_readable(), Interest::Readable)) {
+                PushEntry::Pending(k) => Some(k),
+                PushEntry::Ready(_) => None,
+            };
+            let _ = driver.poll(Some(Duration::from_millis(50)));
+            let tfd = Instant::now();
+            while let Some(k) = fd_op.take() {
+                match driver.pop(k) {
+                    PushEntry::Ready(_) => {}
+                    PushEntry::Pending(k) => {
+                        if tfd.elapsed() > Duration::from_secs(2) {
+                            return Err("the always-readable socket never became ready".into());
+                        }
+                        fd_op = Some(k);
+                        let _ = driver.poll(Some(Duration::from_millis(5)));
+                    }
+                }
+            }
+            for (j, slot) in keys.iter_mut() {
+                if let Some(k) = slot.take() {
+                    match catch_unwind(AssertUnwindSafe(|| driver.pop(k))) {
+                        Ok(PushEntry::Ready(BufResult(Ok(v), op))) => {
+                            if v != *j + 1000 || op.into_inner() != payload_of(sh.salt, *j) {
+                                return Err(format!("job {j}: result {v} / payload differs"));
+                            }
+                            outs.insert(*j, Out::Value);
+                            last_round = round;
+                        }
+                        Ok(PushEntry::Ready(BufResult(Err(e), _))) => return Err(format!("job {j}: io error {e}")),
+                        Ok(PushEntry::Pending(k)) => *slot = Some(k),
+                        Err(_) => {
+                            outs.insert(*j, Out::Panic);
+                            last_round = round;
+                        }
+                    }
+                }
+            }
+            if outs.len() == n {
+                break;
+            }
+        }
+        Ok((outs, last_round))
+    });
+    let t0 = Instant::now();
+    while !h.is_finished() && t0.elapsed() < Duration::from_secs(30) {
+        thread::sleep(Duration::from_millis(1));
+    }
+    let mut finished = HashMap::new();
+    if !h.is_finished() {
+        ABANDONED.store(true, SeqCst);
+        ex.fail("C17:dispatch-starved", format!("busyfd run on the {} driver did not end within 30 s", driver_name(dt)));
+    } else {
+        match h.join() {
+            Ok(Ok((outs, last_round))) => {
+                if outs.len() < n {
+                    ex.fail(
+                        "C17:result-not-delivered",
+                        format!(
+                            "{} driver: {} of {n} finished blocking jobs did not reach their submitter in {MAX_ROUNDS} polls while a file descriptor was ready on every poll",
+                            driver_name(dt),
+                            n - outs.len()
+                        ),
+                    );
+                } else if last_round > OK_ROUNDS {
+                    ex.fail(
+                        "C17:result-not-delivered",
+                        format!("{} driver: a finished blocking job reached its submitter only after {last_round} polls (fd ready on every poll)", driver_name(dt)),
+                    );
+                }
+                finished = outs;
+            }
+            Ok(Err(m)) => ex.fail("C17:result", m),
+            Err(_) => ex.fail("C17:result", "the runtime thread panicked outside pop"),
+        }
+    }
+    for (j, k) in kinds.iter().enumerate() {
+        let c = sh.exec[j].load(SeqCst);
+        if c != 1 {
+            ex.fail("C17:exactly-once", format!("asyncify op {j} ran {c} times"));
+        }
+        let want = if *k == b'p' { Out::Panic } else { Out::Value };
+        if let Some(o) = finished.get(&j) {
+            if *o != want {
+                ex.fail("C17:result", format!("asyncify op {j}: {} reached the submitter instead of {}", o.name(), want.name()));
+            }
+        }
+    }
+    ex.tag(format!("busyfd:{}", driver_name(dt)));
+    ex.nontrivial = n >= 2;
+    totals(&finished, 0)
+}
+
+/// `parked <limit> <timeout_ms> <u|p> <hold_ms> <poll_timeout_ms>`: a pool shared with a foreign dispatcher
+/// whose jobs hold every thread for `hold_ms`; the driver pushes a blocking job meanwhile and then sleeps in
+/// `poll(poll_timeout)`.  The refused submission is retried by the submitting driver itself, so the job must
+/// start promptly once a thread is free — not when the driver happens to wake (`C17:submission-parked`).
+fn exec_parked(w: &[&str], salt: u64, ex: &mut Exec) -> String {
+    let (Ok(limit), Ok(tmo), Ok(hold), Ok(pt)) =
+        (w[1].parse::<usize>(), w[2].parse::<u64>(), w[4].parse::<u64>(), w[5].parse::<u64>())
+    else {
+        return "bad-op".into();
+    };
+    let dt = match w[3] {
+        "u" => DriverType::IoUring,
+        "p" => DriverType::Poll,
+        _ => return "bad-op".into(),
+    };
+    if limit == 0 || limit > 8 || hold > 2_000 || pt > 10_000 {
+        return "bad-op".into();
+    }
+    let sh = Shared::new(salt);
+    let pool = AsyncifyPool::new(limit, Duration::from_millis(tmo));
+    let (res_tx, res_rx) = mpsc::channel::<(usize, Out, u64)>();
+    let (beg_tx, beg_rx) = mpsc::channel::<(usize, usize)>();
+    // the foreign dispatcher (another runtime, or a raw user of the pool) occupies every thread
+    let mut gates = vec![];
+    for j in 0..limit {
+        let (gtx, grx) = mpsc::channel::<()>();
+        let job = make_job(&sh, j, b'v', Wait::Gate(grx), &res_tx, Some(beg_tx.clone()));
+        let t0 = Instant::now();
+        let mut job = Some(job);
+        while let Some(jb) = job.take() {
+            match catch(|| pool.dispatch(jb)) {
+                Ok(Ok(())) => {}
+                Ok(Err(DispatchError(back))) if t0.elapsed() < Duration::from_secs(5) => {
+                    job = Some(back);
+                    thread::yield_now();
+                }
+                _ => {
+                    ex.fail("C17:dispatch-starved", format!("foreign job {j} was not accepted (limit {limit})"));
+                    return totals(&HashMap::new(), 0);
+                }
+            }
+        }
+        if beg_rx.recv_timeout(Duration::from_secs(5)).is_err() {
+            ex.fail("C17:lost-job", format!("foreign job {j} did not start"));
+            note_lost();
+            return totals(&HashMap::new(), 0);
+        }
+        gates.push(gtx);
+    }
+    let j = limit;
+    let began: Arc<Mutex<Option<Instant>>> = Arc::new(Mutex::new(None));
+    let freed: Arc<Mutex<Option<Instant>>> = Arc::new(Mutex::new(None));
+    // release the threads after `hold` ms
+    let freed2 = freed.clone();
+    let releaser = helper(move || {
+        thread::sleep(Duration::from_millis(hold));
+        *freed2.lock().unwrap() = Some(Instant::now());
+        drop(gates);
+    });
+    let (sh2, pool2, began2) = (sh.clone(), pool.clone(), began.clone());
+    let h = helper(move || -> Result<Option<Out>, String> {
+        let sh = sh2;
+        let mut builder = Proactor::builder();
+        builder.driver_type(dt).reuse_thread_pool(pool2);
+        let mut driver = builder.build().map_err(|e| format!("build: {e}"))?;
+        let op = Asyncify::new(asyncify_body(sh.clone(), j, b'v', Duration::ZERO, Some(began2)));
+        let mut key = match driver.push(op) {
+            PushEntry::Pending(k) => k,
+            PushEntry::Ready(_) => return Err("push completed synchronously".into()),
+        };
+        // sleep in the driver like an idle runtime does, then collect
+        let t0 = Instant::now();
+        loop {
+            let _ = driver.poll(Some(Duration::from_millis(pt)));
+            match driver.pop(key) {
+                PushEntry::Ready(BufResult(Ok(v), op)) => {
+                    if v != j + 1000 || op.into_inner() != payload_of(sh.salt, j) {
+                        return Err(format!("job {j}: result {v} / payload differs"));
+                    }
+                    return Ok(Some(Out::Value));
+                }
+                PushEntry::Ready(BufResult(Err(e), _)) => return Err(format!("job {j}: io error {e}")),
+                PushEntry::Pending(k) => {
+                    key = k;
+                    if t0.elapsed() > Duration::from_millis(2 * pt + hold + 3_000) {
+                        return Ok(None);
+                    }
+                }
+            }
+        }
+    });
+    let t0 = Instant::now();
+    let deadline = Duration::from_millis(2 * pt + hold + 10_000);
+    while !h.is_finished() && t0.elapsed() < deadline {
+        thread::sleep(Duration::from_millis(1));
+    }
+    let _ = releaser.join();
+    let mut finished = HashMap::new();
+    for _ in 0..limit {
+        if let Ok((fj, out, _)) = res_rx.recv_timeout(Duration::from_secs(4)) {
+            finished.insert(fj, out);
+        }
+    }
+    if !h.is_finished() {
+        ABANDONED.store(true, SeqCst);
+        ex.fail("C17:dispatch-starved", format!("the driver's blocking job was neither run nor refused within {deadline:?} (shared pool, limit {limit})"));
+    } else {
+        match h.join() {
+            Ok(Ok(Some(o))) => {
+                finished.insert(j, o);
+            }
+            Ok(Ok(None)) => ex.fail("C17:lost-job", format!("the driver's blocking job delivered nothing (shared pool, limit {limit})")),
+            Ok(Err(m)) => ex.fail("C17:result", m),
+            Err(_) => ex.fail("C17:result", "the runtime thread panicked"),
+        }
+    }
+    let (b, f) = (*began.lock().unwrap(), *freed.lock().unwrap());
+    match (b, f) {
+        (Some(b), Some(f)) => {
+            let late = b.saturating_duration_since(f);
+            if late > Duration::from_millis(pt / 3) {
+                ex.fail(
+                    "C17:submission-parked",
+                    format!(
+                        "{} driver, shared pool limit {limit}: the submitted blocking job started {} ms after the foreign job freed the thread (the driver slept in poll({pt} ms)); it must be retried by the submitter itself",
+                        driver_name(dt),
+                        late.as_millis()
+                    ),
+                );
+            }
+        }
+        (None, _) => ex.fail("C17:lost-job", "the driver's blocking job never started"),
+        _ => {}
+    }
+    let c = sh.exec[j].load(SeqCst);
+    if c != 1 {
+        ex.fail("C17:exactly-once", format!("asyncify op {j} ran {c} times"));
+    }
+    drop(pool);
+    ex.tag(format!("parked:{}", driver_name(dt)));
+    ex.nontrivial = true;
+    totals(&finished, 0)
+}
+
 /// `burst <limit> <timeout_ms> <u|p> <ring capacity> <jobs> <microseconds>`: one `Proactor` with a small ring;
 /// all jobs are pushed back-to-back without a poll in between (more than the completion queue and the
 /// pool can hold), then polled to completion.  The results travel back on the driver's completion channel,
@@ -1346,7 +1678,7 @@ fn exec_inner(case: &Case) -> Exec {
     let first: Vec<&str> = case.lines.first().map(|l| l.split_whitespace().collect()).unwrap_or_default();
     match first.first().copied() {
         Some("hist") => exec_hist(case, &mut ex),
-        Some("conc") | Some("prx") | Some("burst") => {
+        Some("conc") | Some("prx") | Some("burst") | Some("busyfd") | Some("parked") => {
             let salt = checksum(case.name.as_bytes());
             for line in &case.lines {
                 let w: Vec<&str> = line.split_whitespace().collect();
@@ -1354,6 +1686,8 @@ fn exec_inner(case: &Case) -> Exec {
                     Some("conc") if w.len() >= 4 => exec_conc(&w, salt, &mut ex),
                     Some("prx") if w.len() >= 5 => exec_prx(&w, salt, &mut ex),
                     Some("burst") if w.len() == 7 => exec_burst(&w, salt, &mut ex),
+                    Some("busyfd") if w.len() == 5 => exec_busyfd(&w, salt, &mut ex),
+                    Some("parked") if w.len() == 6 => exec_parked(&w, salt, &mut ex),
                     _ => "bad-op".into(),
                 };
                 ex.out.push(out);
@@ -1558,6 +1892,22 @@ fn generate_inner(tier: &str, rng: &mut Rng) -> Vec<Case> {
             .collect();
         let (op, extra) = if i % 3 == 2 { ("prx", if rng.chance(1, 2) { "u " } else { "p " }) } else { ("conc", "") };
         cases.push(Case { name: format!("strand/{i}"), lines: vec![conc_line(op, limit, tmo, extra, &scripts)] });
+    }
+    // 4b. results while a file descriptor is ready on every poll; a shared pool freed by a foreign dispatcher
+    for i in 0..if thorough { 60 } else { 8 } {
+        let limit = rng.range(1, 4);
+        let dt = if i % 2 == 0 { "p " } else { "u " };
+        let mut script = gen_scripts(rng, 1, 5, 400, false).remove(0);
+        for sp in script.iter_mut() {
+            sp.dur_us = sp.dur_us.min(400);
+        }
+        cases.push(Case { name: format!("busyfd/{i}"), lines: vec![conc_line("busyfd", limit, 1000, dt, &[script])] });
+    }
+    for i in 0..if thorough { 24 } else { 4 } {
+        let limit = if i % 4 == 3 { 2 } else { 1 };
+        let dt = if i % 2 == 0 { "u" } else { "p" };
+        let hold = rng.range(100, 300);
+        cases.push(Case { name: format!("parked/{i}"), lines: vec![format!("parked {limit} 5000 {dt} {hold} 3000")] });
     }
     // 5. bursts through one Proactor with a small ring, pushed without polling (last: a stuck burst
     //    leaves its runtime thread behind and the rest of the run would be abandoned)
